@@ -304,6 +304,8 @@ struct Plan {
     st_secs: i64,
     bst_secs: i64,
     sig_alg: u8,
+    /// one more unknown signed attribute with a value of this many octets, and whether it is written first
+    sized_extra: Option<(usize, bool)>,
     /// NULL parameters of the digest algorithm: bit 0 in SignedData.digestAlgorithms, bit 1 in SignerInfo.digestAlgorithm
     digest_null: u8,
 }
@@ -312,7 +314,7 @@ const ATTR_NAMES: [&str; 3] = ["ct", "md", "st"];
 
 impl Plan {
     fn base() -> Plan {
-        Plan { order: [0, 1, 2], extras: vec![], extras_first: false, st_gen: false, digest: DigestV::Ok, sig: SigV::Ok, ee: EeV::Plain, crl: CrlV::Plain, prof: ProfV::Ok, st_secs: T0 - 60, bst_secs: T0 - 60, sig_alg: 0, digest_null: 0 }
+        Plan { order: [0, 1, 2], extras: vec![], extras_first: false, st_gen: false, digest: DigestV::Ok, sig: SigV::Ok, ee: EeV::Plain, crl: CrlV::Plain, prof: ProfV::Ok, st_secs: T0 - 60, bst_secs: T0 - 60, sig_alg: 0, sized_extra: None, digest_null: 0 }
     }
     fn stated_ok(&self) -> bool { self.digest == DigestV::Ok && self.sig == SigV::Ok && self.ee.ok() && self.crl.ok() }
     fn all_ok(&self) -> bool { self.stated_ok() && self.prof == ProfV::Ok }
@@ -413,6 +415,10 @@ fn plan_attrs(fx: &Fx, p: &Plan) -> (Vec<Vec<u8>>, Vec<Vec<u8>>) {
     let extras: Vec<Vec<u8>> = p.extras.iter().map(|e| extra_attr(*e, p.bst_secs)).collect();
     let mut all = Vec::new();
     if p.extras_first { all.extend(extras.clone()); all.extend(mandatory.clone()) } else { all.extend(mandatory.clone()); all.extend(extras) }
+    if let Some((n, first)) = p.sized_extra {
+        let a = der::attribute(&[1, 3, 6, 1, 4, 1, 99999, 3, 9], &[der::octets(&(0..n).map(|i| (i * 3 + 2) as u8).collect::<Vec<_>>())]);
+        if first { all.insert(0, a) } else { all.push(a) }
+    }
     (all, mandatory)
 }
 
@@ -952,6 +958,68 @@ fn main() {
         sp.done(true, "6 orders x 15 extra sets x 2 placements x 2 time forms; x 7 EE + 9 CRL spellings; 7 x 9 EE x CRL");
     }
 
+    //--- (b1b) total size of the signed attributes, every length ------------------------------------------------------
+    {
+        let sp = ctx.space("attrs.size",
+            "foreign message with the three mandatory attributes plus one unknown attribute whose value is sized so that the signed attributes total exactly L octets: every L reachable in 100..=300 (two signing-time forms, with / without a second small unknown attribute), order ct,md,st; all 6 orders x sized attribute first / last for L in {127,128,129,255,256,257}; L in {65534, 65535}; correctly signed over the DER SET OF encoding: must validate (strict, relaxed, PublicationCms). Twins signed over the [0]-tagged encoding for the boundary lengths: rejected. L in {65536, 65537}: beyond the documented 65535 limit, the outcome is counted, not judged - except that nothing may panic; non-trivial = distinct total lengths reached (gaps in 100..=300 reported)");
+        // candidate settings -> total length
+        let total = |p: &Plan| der::cat(&plan_attrs(&fx, p).0).len();
+        let mut by_len: BTreeMap<usize, Plan> = BTreeMap::new();
+        for with_small in [false, true] { for st_gen in [false, true] { for n in 0..=260usize {
+            let mut p = Plan::base(); p.st_gen = st_gen; p.sized_extra = Some((n, false));
+            if with_small { p.extras = vec![Extra::Unk1] }
+            let l = total(&p);
+            if (100..=300).contains(&l) { by_len.entry(l).or_insert(p); }
+        }}}
+        for st_gen in [false, true] { let mut p = Plan::base(); p.st_gen = st_gen; by_len.entry(total(&p)).or_insert(p); }
+        let gaps: Vec<usize> = (100..=300).filter(|l| !by_len.contains_key(l)).collect();
+        // (plan, expectation: Some(valid) / None = counted only)
+        let mut jobs: Vec<(Plan, Option<bool>)> = by_len.values().map(|p| (p.clone(), Some(true))).collect();
+        for l in [127usize, 128, 129, 255, 256, 257] {
+            let Some(b) = by_len.get(&l) else { ctx.machinery_error(format!("attrs.size cannot reach {l} octets")); continue };
+            for o in &perms { for first in [false, true] {
+                let mut p = b.clone(); p.order = *o; if let Some((n, _)) = p.sized_extra { p.sized_extra = Some((n, first)) }
+                jobs.push((p.clone(), Some(true)));
+                if !first { p.sig = SigV::OverImplicitTag; jobs.push((p, Some(false))) }
+            }}
+        }
+        for target in [65534usize, 65535, 65536, 65537] {
+            let mut found = None;
+            for n in (target - 200)..target { let mut p = Plan::base(); p.sized_extra = Some((n, false)); if total(&p) == target { found = Some(p); break } }
+            match found { Some(p) => jobs.push((p, if target <= 65535 { Some(true) } else { None })), None => ctx.machinery_error(format!("attrs.size cannot reach {target} octets")) }
+        }
+        let oc: Mutex<BTreeMap<&'static str, u64>> = Mutex::new(BTreeMap::new());
+        let lens: Mutex<BTreeSet<usize>> = Mutex::new(BTreeSet::new());
+        let ee = cache.ee(&fx, &Plan::base());
+        let crl_der = cache.crl(&fx, &Plan::base());
+        jobs.par_iter().for_each(|(p, want)| {
+            let l = total(p);
+            let bytes = assemble(&fx, p, &ee, &crl_der);
+            lens.lock().unwrap().insert(l);
+            for via in [Via::Strict, Via::Relaxed, Via::Publication] {
+                let v = run(&bytes, &fx.peer, T0, via);
+                sp.eval();
+                let wit = || format!("foreign attrs_len={l} order={} sized-unknown-attribute={:?} extras={:?} st={} signed-over={} via={via:?} when=T0", p.order.iter().map(|&i| ATTR_NAMES[i]).collect::<Vec<_>>().join(","),
+                    p.sized_extra, p.extras, if p.st_gen { "generalized" } else { "utc" }, if p.sig == SigV::Ok { "SET OF" } else { "[0]-tagged" });
+                match want {
+                    Some(w) => { *oc.lock().unwrap().entry(v.class()).or_insert(0) += 1; expect(&ctx, "C10.attrs.size.accept", "C10.attrs.size.reject", *w, &v, wit) }
+                    None => {
+                        *oc.lock().unwrap().entry(match &v { Verdict::Accept => "over-limit-validated", Verdict::Panic(_) => "panic", _ => "over-limit-rejected" }).or_insert(0) += 1;
+                        if let Verdict::Panic(pn) = &v { fail("C10.no_panic", wit(), pn.clone()) }
+                    }
+                }
+            }
+        });
+        let lens = lens.into_inner().unwrap();
+        sp.merge_outcomes(&oc.lock().unwrap());
+        sp.nontrivial(lens.len() as u64);
+        sp.set("unreached_lengths_100_300", serde_json::json!(gaps));
+        sp.set("lengths", serde_json::json!(format!("{} distinct, {}..={}", lens.len(), lens.iter().next().unwrap(), lens.iter().last().unwrap())));
+        sp.sample_str(|| format!("{} distinct lengths, unreached in 100..=300: {:?}", lens.len(), gaps));
+        for l in [127usize, 128, 129, 255, 256, 257, 65534, 65535] { if !lens.contains(&l) { ctx.machinery_error(format!("attrs.size does not reach {l}")) } }
+        sp.done(true, "every reachable total in 100..=300; 6 orders x 2 placements at 127/128/129/255/256/257 (+ twins); 65534..=65537; x 3 decoders");
+    }
+
     //--- (b2) foreign: violations ---------------------------------------------------------------------------
     {
         let sp = ctx.space("foreign.violations",
@@ -1012,6 +1080,7 @@ fn main() {
             let c = CrlSpec { this: T0 - W, next: T0 + W, sign_key: K_PEER, revoked: None, aki: None, number: None, unknown_ext: false, ext_block: false, ign: CrlIgn::DEFAULT, ee_serial: EE_SERIAL.to_vec() };
             let bytes = assemble(&fx, &Plan::base(), &cache.ee(&fx, &Plan::base()), &crl(s, &c));
             let v = run(&bytes, &fx.peer, T0, Via::Relaxed);
+            if let Verdict::Panic(pn) = &v { fail("C10.no_panic", "foreign order=ct,md,st extras=[] crl without crlExtensions via=Relaxed when=T0", pn.clone()) }
             sp.set("crl_without_extension_block", serde_json::json!(v.show()));
         }
         // BER spelling inside the revoked list (non-minimal length of the revocation date): DER decoding must refuse it,
